@@ -1,7 +1,7 @@
 /- C19 helper lemmas: the theta/tuple hash table programs keep their bookkeeping invariant and never fail a
    precondition (part 1: views, invariant, constructor, destructor, copy). -/
 import DSModel.Life.Theta
-import DSProofs.Lemmas.LifeInv
+import DSProofs.Lemmas.LifeView
 namespace DS.Life.Theta
 open DS.Life
 
@@ -204,5 +204,125 @@ theorem dtor_spec (n0 : Nat) (S : Nat → Bool) (t : Table) (b : Nat) (hb : t.en
         · exact hr'
         · exact absurd (ew ▸ hw0) hnz
       · exact hr j (by omega)
+
+
+/-! ### `find` -/
+
+/-- what `find` returns: a slot holding the key, or an empty slot together with the evidence that the key is
+    nowhere in the table and that the empty slot is the first such on the key's probe path -/
+def FindPost (P : Params) (h : Heap) (b lg key : Nat) (r : Nat × Bool) : Prop :=
+  r.1 < 2 ^ lg ∧
+  ((r.2 = true ∧ wordAt h b r.1 = key) ∨
+   (r.2 = false ∧ wordAt h b r.1 = 0 ∧ (∀ p, p < 2 ^ lg → wordAt h b p ≠ key) ∧ PathTo P h b lg key r.1))
+
+theorem findLoop_spec (P : Params) (n0 : Nat) (S : Nat → Bool) (b lg key : Nat) (hk : key ≠ 0) (h0 : Heap)
+    (hc : HasCells h0 b (2 ^ lg)) (hp : PathInv P h0 b lg) :
+    ∀ fuel j, (∀ j', j' < j → wordAt h0 b (probe P lg key j') ≠ 0 ∧ wordAt h0 b (probe P lg key j') ≠ key) →
+      SafeF S h0 (findLoop b (2 ^ lg) (stride P key lg) key fuel (probe P lg key j) h0)
+        (fun r h => h = h0 ∧ FindPost P h0 b lg key r) := by
+  intro fuel
+  induction fuel with
+  | zero => intro j _; exact SafeF.exc _
+  | succ f ih =>
+    intro j hj
+    unfold findLoop
+    obtain ⟨c, e, ew, _⟩ := hc.cell_st (probe_lt P lg key j)
+    apply step_readWord e
+    by_cases h0w : c.word = 0
+    · rw [if_pos h0w]
+      apply SafeF.pure
+      refine ⟨rfl, probe_lt P lg key j, Or.inr ⟨rfl, by rw [← ew]; exact h0w, ?_, ⟨j, rfl, hj⟩⟩⟩
+      intro p hpl hpk
+      -- the key cannot be stored anywhere: its path would have to cross the empty slot
+      have hne : wordAt h0 b p ≠ 0 := by rw [hpk]; exact hk
+      obtain ⟨jp, ejp, hjp⟩ := hp p hpl hne
+      rw [hpk] at ejp hjp
+      rcases Nat.lt_trichotomy jp j with hlt | heq | hgt
+      · have := (hj jp hlt).2
+        rw [ejp, hpk] at this
+        exact this rfl
+      · subst heq
+        rw [ejp] at e
+        have : wordAt h0 b p = c.word := wordAt_of e
+        omega
+      · have := (hjp j hgt).1
+        rw [ew] at h0w
+        exact this h0w
+    · rw [if_neg h0w]
+      by_cases hkw : c.word = key
+      · rw [if_pos hkw]
+        apply SafeF.pure
+        exact ⟨rfl, probe_lt P lg key j, Or.inl ⟨rfl, by rw [← ew]; exact hkw⟩⟩
+      · rw [if_neg hkw]
+        have := ih (j + 1) (by
+          intro j' hj'
+          by_cases hjj : j' = j
+          · subst hjj; rw [← ew]; exact ⟨h0w, hkw⟩
+          · exact hj j' (by omega))
+        simpa [probe] using this
+
+theorem find_spec (P : Params) (n0 : Nat) (S : Nat → Bool) (b lg key : Nat) (hk : key ≠ 0) (h0 : Heap)
+    (hc : HasCells h0 b (2 ^ lg)) (hp : PathInv P h0 b lg) :
+    SafeF S h0 (find P b lg key h0) (fun r h => h = h0 ∧ FindPost P h0 b lg key r) := by
+  unfold find
+  have := findLoop_spec P n0 S b lg key hk h0 hc hp (2 ^ lg) 0 (by intro j' hj'; omega)
+  simpa [probe] using this
+
+
+/-! ### entry-level steps (key word + summary value) -/
+
+theorem vstep_constructEntry {β} {S} {h : Heap} {b i n : Nat} (key v : Nat) {f : Unit → M β} {Q : β → Heap → Prop}
+    (hc : HasCells h b n) (hi : i < n) (hr : stAt h b i = .raw) (hS : S b = true)
+    (s : ∀ h', SameBut h h' (fun b' j => b' = b ∧ j = i) → wordAt h' b i = key → stAt h' b i = .live v →
+          SafeF S h' (f () h') Q) :
+    SafeF S h ((constructEntry b i key v >>= f) h) Q := by
+  unfold constructEntry
+  simp only [M.bind_assoc]
+  apply vstep_construct v hc hi hr hS
+  intro h1 sb1 _ hst1
+  apply vstep_writeWord key (sb1.cells _ _ hc) hi hS
+  intro h2 sb2 hw2 hst2
+  exact s h2 (sb1.trans sb2 (fun _ _ x => x) (fun _ _ x => x)) hw2 (by rw [hst2, hst1])
+
+theorem vstep_copyConstructEntry {β} {S} {h : Heap} {sb si sn db di dn v : Nat} {f : Unit → M β} {Q : β → Heap → Prop}
+    (hcs : HasCells h sb sn) (hsi : si < sn) (hl : stAt h sb si = .live v)
+    (hcd : HasCells h db dn) (hdi : di < dn) (hr : stAt h db di = .raw) (hS : S db = true)
+    (s : ∀ h', SameBut h h' (fun b' j => b' = db ∧ j = di) → wordAt h' db di = wordAt h sb si → stAt h' db di = .live v →
+          SafeF S h' (f () h') Q) :
+    SafeF S h ((copyConstructEntry sb si db di >>= f) h) Q := by
+  unfold copyConstructEntry
+  simp only [M.bind_assoc]
+  apply vstep_read hcs hsi hl
+  apply vstep_readWord hcs hsi
+  apply vstep_construct v hcd hdi hr hS
+  intro h1 sb1 _ hst1
+  apply vstep_writeWord _ (sb1.cells _ _ hcd) hdi hS
+  intro h2 sb2 hw2 hst2
+  exact s h2 (sb1.trans sb2 (fun _ _ x => x) (fun _ _ x => x)) hw2 (by rw [hst2, hst1])
+
+theorem vstep_moveConstructEntry {β} {S} {h : Heap} {sb si sn db di dn v : Nat} {f : Unit → M β} {Q : β → Heap → Prop}
+    (hcs : HasCells h sb sn) (hsi : si < sn) (hl : stAt h sb si = .live v)
+    (hcd : HasCells h db dn) (hdi : di < dn) (hr : stAt h db di = .raw) (hne : ¬ (db = sb ∧ di = si))
+    (hSs : S sb = true) (hSd : S db = true)
+    (s : ∀ h', SameBut h h' (fun b' j => (b' = sb ∧ j = si) ∨ (b' = db ∧ j = di)) →
+          wordAt h' db di = wordAt h sb si → stAt h' db di = .live v →
+          wordAt h' sb si = wordAt h sb si → stAt h' sb si = .moved → SafeF S h' (f () h') Q) :
+    SafeF S h ((moveConstructEntry sb si db di >>= f) h) Q := by
+  unfold moveConstructEntry
+  simp only [M.bind_assoc]
+  apply vstep_moveFrom hcs hsi hl hSs
+  intro h1 sb1 hw1 hst1
+  apply vstep_readWord (sb1.cells _ _ hcs) hsi
+  have hr1 : stAt h1 db di = .raw := by rw [sb1.st db di (fun x => hne x)]; exact hr
+  apply vstep_construct v (sb1.cells _ _ hcd) hdi hr1 hSd
+  intro h2 sb2 _ hst2
+  apply vstep_writeWord _ (sb2.cells _ _ (sb1.cells _ _ hcd)) hdi hSd
+  intro h3 sb3 hw3 hst3
+  have hne' : ¬ (sb = db ∧ si = di) := fun x => hne ⟨x.1.symm, x.2.symm⟩
+  apply s h3 ((sb1.trans sb2 (fun _ _ x => Or.inl x) (fun _ _ x => Or.inr x)).trans sb3 (fun _ _ x => x) (fun _ _ x => Or.inr x))
+  · rw [hw3, hw1]
+  · rw [hst3, hst2]
+  · rw [sb3.word sb si hne', sb2.word sb si hne', hw1]
+  · rw [sb3.st sb si hne', sb2.st sb si hne', hst1]
 
 end DS.Life.Theta
